@@ -642,7 +642,15 @@ impl<'a, 'b> Session<'a, 'b> {
             let it = &self.it;
             // vars() is called after every step - after rows, error items and the end alike; a
             // panic in it is a panic of the run
-            match guarded(|| it.vars().into_iter().collect::<BTreeMap<_, _>>()) {
+            match guarded(|| {
+                let first = it.vars().into_iter().collect::<BTreeMap<_, _>>();
+                // asked twice in a row, it answers the same
+                let second = it.vars().into_iter().collect::<BTreeMap<_, _>>();
+                if first != second {
+                    panic!("vars() called twice in a row gave {first:?} and then {second:?}");
+                }
+                first
+            }) {
                 Ok(v) => Some(v),
                 Err(p) => {
                     self.dead = true;
